@@ -199,6 +199,10 @@ def build_array(ad, k=0, toks=None):
     vals = make_values(shape, ad.get("vkind", "f"), k, ad.get("nan_at", ()))
     if "values" in ad:
         vals = np.array(ad["values"], dtype={"f": float, "i": np.int64, "b": bool, "O": object}[ad.get("vkind", "f")]).reshape(shape)
+    if ad.get("inf_at") and vals.dtype.kind == "f":
+        for i, sgn in ad["inf_at"]:
+            if i < vals.size:
+                vals.reshape(-1)[i] = np.inf if sgn > 0 else -np.inf     # infinite (not missing) values
     if ad.get("vbase") and vals.dtype.kind == "i":
         vals = vals + int(ad["vbase"])          # large integers (not representable in single precision)
     vd = ad.get("vdtype")
